@@ -9,6 +9,10 @@ HOOKS = dict(
 )
 
 ENGINES = [
+    dict(name="mirproto", path="lib/mirproto_engine.py", serves_properties=["C05", "C06"],
+         kind_free_text="MIR -> SMT bounded model checking of lock-free protocols: the nightly compiler's MIR of the real protocol functions is regenerated on every run; "
+                        "thread-local code is executed concretely into per-thread automata of visible steps (atomics with their orderings, fences, cell accesses, waker callbacks, storage release); "
+                        "all interleavings of the endpoint programs up to the step bound, with vector-clock happens-before, are decided by z3 (bit-blast + SAT); counterexamples are schedules re-checked against the current source"),
     dict(name="kani", path="lib/kani_engine.py", serves_properties=["C01", "C02", "C07", "C11", "C16", "C18"],
          kind_free_text="Kani 0.68 / CBMC 6.11 / CaDiCaL bounded model checking of #[kani::proof] harnesses over the real crates "
                         "(path dependency or in-crate include hook); symbolic inputs and symbolic callback programs; "
@@ -16,6 +20,21 @@ ENGINES = [
 ]
 
 CLAIMED = {
+    "C05": dict(
+        engine="mirproto",
+        technique="SMT-based bounded model checking (z3) of all interleavings of the real protocol functions, extracted from the compiler's MIR, with vector-clock happens-before",
+        design_ref="DESIGN.md §5 C05",
+        text="For every scenario (sender: send | drop) x (receiver program of <= 2 operations from poll(w1), poll(w2), is_ready, into_value, drop; <= 3 in the thorough tier) z3 decides over ALL interleavings of the visible steps of the real functions (Event::{set, sender_dropped_without_set, poll, poll_bound, poll_set, poll_awaiting, poll_signaling, is_set, final_poll, destroy_*}) up to the longest path of the scenario: "
+             "no panic/unreachable arm, payload and waker cells only used in the right state, every cell access happens-after the previous one (no data race under the orderings in the source), payload handed over xor destroyed exactly once, waker clones = drops, outcome consistent with the sender's operation, and a receiver left pending is woken once the sender completed. Bounded, not a proof.",
+        note="Trusts rustc's MIR, the extraction tables (fail closed), the hand-modelled endpoint wrappers (fingerprint-pinned), z3. One atomic location, so value reads are SC by coherence; happens-before exact.",
+    ),
+    "C06": dict(
+        engine="mirproto",
+        technique="SMT-based bounded model checking (z3) of all interleavings of the real protocol functions, extracted from the compiler's MIR, with vector-clock happens-before on the storage release",
+        design_ref="DESIGN.md §5 C06",
+        text="Same scenarios and model as C05; decided: exactly one release_event by the time both endpoints are gone (none while the receiver is alive), no access to event memory after the release, and the release happens-after every access the other endpoint made (vector clocks under the orderings actually written: a weakened ordering or a missing fence yields a schedule). Found the genuine missing-acquire defect in sender_dropped_without_set (fixed, see known_findings.json). Bounded, not a proof.",
+        note="Storage release is abstract (call sites, not the boxed/embedded/pooled bodies); pool and lake rental traffic is outside. Trusts rustc's MIR, the extraction tables, z3.",
+    ),
     "C11": dict(
         engine="kani",
         technique="bounded model checking (Kani/CBMC SAT) of the real affinity-mask code (bit position arithmetic for every u32 id, set semantics and width-independent equality)",
@@ -74,7 +93,7 @@ CLAIMED = {
 
 PENDING = "check under construction in this build phase (see DESIGN.md); not claimed until its check is committed"
 NOT_APPLICABLE = {
-    "C05": PENDING, "C06": PENDING, "C08": PENDING,
+    "C08": PENDING,
     "C19": PENDING, "C20": PENDING,
     "C03": "wrapper pools (Arc<Mutex<..>>, Rc<RefCell<..>> + type-erased removers) exhaust 20-28 GB in CBMC even for {insert; drop handle} at capacity 2 (DESIGN.md P22); the Send/Sync clause is a trait-solver question, not an SMT query over the code",
     "C04": "the panic half needs unwinding (absent in Kani; catch_unwind even ICEs it) and the re-entrancy half needs the wrapper-pool shapes that do not fit (P22)",
